@@ -24,10 +24,27 @@ type stageResult struct {
 	Exhaustive    bool       `json:"exhaustive"`
 	Domain        string     `json:"domain"`
 	Samples       []string   `json:"samples,omitempty"`
+	seen          map[string]bool
 }
 
 func (s *stageResult) add(op, real, model, note string) {
 	s.MismatchCount++
+	if s.Name == "E3" {
+		// keep one mismatch per (function, state, code point): the search turns each into whole strings
+		f := strings.Fields(op)
+		if len(f) >= 3 {
+			key := f[0] + " " + f[1] + " " + f[2]
+			if s.seen == nil {
+				s.seen = map[string]bool{}
+			}
+			if s.seen[key] || len(s.Mismatches) >= 120 {
+				return
+			}
+			s.seen[key] = true
+			s.Mismatches = append(s.Mismatches, mismatch{op, real, model, note})
+			return
+		}
+	}
 	if len(s.Mismatches) < 25 {
 		s.Mismatches = append(s.Mismatches, mismatch{op, real, model, note})
 	}
